@@ -7,7 +7,7 @@
    mathematical meaning: exact integers, usual precedence, left associativity,
    division and remainder truncating toward zero, any run of unary signs. *)
 From GM Require Import Base Text Token Lexer Scanner ExprSpec ExprEval Parser Compile Sim
-     C07Parser C07Signs C07Model C07Proof.
+     C07Parser C07Signs C07Model C07Proof C07Inverse.
 Open Scope Z_scope.
 
 (* every expression tree (any nesting, any run of stacked signs, redundant parentheses), written
@@ -67,6 +67,16 @@ Theorem C07_assert :
                    evaluate_expression e = EOk v /\ v <> 0.
 Proof. exact assert_passes. Qed.
 Print Assumptions C07_assert.
+
+(* not only printed trees: EVERY token list the reference evaluator accepts (non-negative number tokens, operators,
+   parentheses, sign runs of any length anywhere) is evaluated by expr.go's evaluator to the reference's value -
+   in particular the token lists that textual substitution of EQU values produces, which are the printed form of
+   no tree the program text shows (C07Inverse: an accepted token list is the printed form of its parse tree) *)
+Theorem C07_all_accepted_token_lists :
+  forall l v, Forall nonneg_tok l -> eval_tokens l = Some v ->
+    evaluate_expression (map inj l) = if int32_ok v then EOk v else EErr.
+Proof. exact evaluate_accepted. Qed.
+Print Assumptions C07_all_accepted_token_lists.
 
 (* the hypotheses are met by   - - 3 * ( 2 - - 4 ) / - + - 2   whose value is 9 *)
 Example C07_example :
